@@ -25,6 +25,22 @@ binding:   (a) one CASE line per value (every value up to length 5 / 6 over x : 
                negative control).  Walks through the emitted LTS are replayed on live Deb822 / Dsc /
                Changes objects: after EVERY step the outcome, the paragraphs of all live objects
                (atomicity, nothing left behind, no aliasing) and the read-back verdicts.
+           (a'') the same module with CONSTRUCTION (MC_Deb822ValueHist_build.cfg: keys A / Files, closed):
+               Fresh(o, how) -- a live paragraph is replaced by an EMPTY one of its class, how = noarg /
+               parsed (the parsing constructor over field-less input) / cleared -- and Rebuild(o, q, c, x)
+               -- it is replaced by Cls(M), M a mapping carrying the fields of live object q, optionally
+               with Files |-> x, c = plain mapping / a paragraph in whose class Files is an ordinary field /
+               a paragraph in whose class Files is MULTIVALUED (raw x, never validated).  Reference:
+               building from a mapping assigns every field (verdict = target class + values, never the
+               carrier's class), an empty paragraph validates like any other however it came to be empty.
+               Walks through this LTS are replayed like (a'), "Files" being played by every multivalued
+               field of every class (FAMILY_KEYS), Fresh by 47 concrete ways (EMPTY_WAYS), the carriers by
+               dict / Deb822Dict / OrderedDict / UserDict / MappingProxyType / ChainMap / user-defined
+               Mapping / live objects / throw-away paragraphs of every class.  The recorded traces (b)
+               contain the same two kinds of event ("fresh", "build") and TLC validates them
+               (TraceDeb822Value: FreshChecks / BuildChecks); the CASE replay has the route ctor-para
+               (Cls(paragraph of another class holding the value under a key multivalued THERE)) and start
+               paragraphs that were empty first (BUILD_KINDS empty-*).
 sizes:     (notes/SIZE_STRESS.md) the abstract cases stay small; every 8th (quick) / 6th CASE line and
            every 3rd walk get a size-stressed concretization -- payload runs at 1..8193 and 64 KiB,
            the first special character at offset 4095/4096/4097, a continuation line repeated
@@ -41,6 +57,14 @@ ways:      an accepted value's dump is read back with Deb822.iter_paragraphs (st
            read-back).  The model has the same dimension (Ways: plain classes vs. the gpg-aware ones
            with their pre-pass), checked up to GpgLen.  Positional strict on a gpg-aware class built
            from a list / file was a genuine defect this check found (repaired in /repo 2236619).
+alignment: (SIZE_STRESS part 4) size dimension "align": the first field is padded so that a line end of the
+           dump -- inside the assigned value, at the end of the assigned field, between the two fields in
+           front of it, at the very end -- falls exactly at / one before / one after a byte offset 2^k,
+           k = 9..17; such texts are read back through StringIO / BytesIO and two rotating KINDS of file
+           object: real file buffered / unbuffered / text mode, io.BufferedReader over a raw stream giving
+           1..7 bytes per read, gzip / bz2 / lzma wrappers, SpooledTemporaryFile, generators of str / bytes
+           lines (all of them also rotate through every other leg).  Expectation unchanged (form-
+           independent); evidence in ctx.extra["aligned_cases"] / ["file_object_kinds"].
 characters: (SIZE_STRESS part 2) payload pools contain non-NFC text next to its precomposed twin,
            case-mapping hazards, U+FEFF / ZWJ / ZWNJ / ZWSP / soft hyphen / bidi marks, non-BMP and
            U+10FFFF; U+0400..U+043F (every UTF-8 trailing byte) rotate through the end of payload
@@ -57,6 +81,24 @@ within one history (legs: C = CASE replay, W = LTS walks on live objects, T = re
              d.setdefault(k, v) on a present field                   no assignment happens (falls back to d[k] = v)
              Cls({k: v, ...})  mapping constructor                   C (route ctor-map; ValueError required) W T (BUILD_KINDS)
              Cls(Deb822Dict / other paragraph)  mapping protocol     C (route ctor-copy) W T (ctor-obj) ; re-entry ctor-self / ctor-dict
+             Cls(paragraph of ANOTHER class) -- every pair of classes,   C (route ctor-para) W T (Rebuild / "build"): in domain -- the statement is
+                 the source holding a raw string under a key that is     about the paragraph being built: the key is an ordinary field of ITS
+                 multivalued (unvalidated) in the SOURCE's class and      class, so the value must be validated / never inject, wherever it came
+                 ordinary in the target's; Cls(live object of a           from.  ValueError required for the statement's three defects, and no
+                 sub- / super- / sibling class); plain Mappings of        object is built; built -> one paragraph with the mapping's field names
+                 every kind (dict, OrderedDict, UserDict, ChainMap,       out of domain: a key that is multivalued in the TARGET's class (the
+                 MappingProxyType, user-defined Mapping)                  constructor restructures it, D3) -- never generated
+             Cls(M) / Cls(sequence=M) / Cls(M, None) / Cls(M, fields=    W T (BUILD_STYLES, rotating)
+                 None, encoding=) / Cls(M, strict=) / 5 positional
+             an EMPTY paragraph, then filled by assignment: Cls(),       C (BUILD_KINDS empty-*) W T (Fresh / "fresh", EMPTY_WAYS rotating): in
+                 Cls(None / {} / Deb822Dict() / OrderedDict() / empty    domain -- "any paragraph": validation and the round trip apply however
+                 paragraph), copy / deepcopy / pickle of an empty one,   the paragraph came to be empty.  The empty paragraph itself has no text
+                 Cls([] / '' / b'' / empty StringIO, BytesIO, real,      (dump() == ''): its round trip is not judged, only that it IS empty, of
+                 unbuffered, spooled, gzip, bz2 file / blank lines /     the right class, and that nothing else changed
+                 CRLF / whitespace-only lines / comments only / 8192-
+                 byte comment / iter([]) / generator / fields= filter
+                 hiding every field / strict kw + pos / sequence=),
+                 d.clear(), del d[k], d.pop(k), d.popitem() to the end
              Cls([(k, v), ...])  sequence of pairs                   out of domain: Deb822.__init__ treats a non-mapping as LINES to
                                                                      parse (only the private Deb822Dict(_dict=...) takes pairs)
              Cls(text | bytes | lines | file, fields=, encoding=,    C W T: as read-back (WAYS) and as creation of the start object
@@ -87,7 +129,9 @@ within one history (legs: C = CASE replay, W = LTS walks on live objects, T = re
              d.get_as_string(k), d[k], d.get, items()                projection of the paragraph after every call (atomicity)
   read BACK  Deb822.iter_paragraphs(str | StringIO | BytesIO)        C W T (six read-backs per accepted value; TLC models them)
              Cls.iter_paragraphs / Cls(...) of the producing class   C W T (WAYS, rotating): str, bytes, lines with / without
-                                                                     newlines, generator, StringIO, BytesIO, real text / binary file;
+                                                                     newlines, generator of str / bytes lines, StringIO, BytesIO, real
+                                                                     text / binary / unbuffered file, BufferedReader over a short-read
+                                                                     raw stream, GzipFile, BZ2File, LZMAFile, SpooledTemporaryFile;
                                                                      strict by keyword / positionally / omitted (Sources and Packages
                                                                      iterate leniently by default); shared_storage=True; fields=
              Deb822.split_gpg_and_payload / gpg_stripped_paragraph   indirectly: every read goes through them (the gpg-aware classes
@@ -95,8 +139,10 @@ within one history (legs: C = CASE replay, W = LTS walks on live objects, T = re
              is_single_line / isSingleLine / is_multi_line / ...     out of domain: predicates on strings, no paragraph involved
 negative controls run in every check: NoIndentRule, AllowEndLF, ValidateLFOnly, ReaderNoWsRule must
 and StrictDroppedInGpgClasses, PosStrictMissedByPrepass must make TLC report Sound violated,
-MemoMode = "value" / "keyvalue" and RejectStoresEmpty HistoryFree;
-corrupted control traces must be rejected, a literal good one accepted.
+MemoMode = "value" / "keyvalue", RejectStoresEmpty, TrustSourceClass (values of a carrier that is a paragraph of
+the target's class or of a subclass are not validated) and ParseLeavesUnchecked (an object whose parsing
+constructor met no field never validates again) HistoryFree;
+corrupted control traces (assignment, fresh and build events) must be rejected, a literal good one accepted.
 """
 import io
 import json
@@ -109,9 +155,9 @@ from concurrent.futures import ThreadPoolExecutor
 import core
 
 MANIFEST = dict(
-    technique="TLA+ spec over code points (Deb822Value: statement layer + transcription of validate_input, _dump_format and the iter_paragraphs reader for str and file input with both whitespace settings; Deb822ValueHist: history-free assignment over several live paragraphs with a process-wide memo as implementation-layer negative control) model-checked by TLC; bounded-exhaustive CASE lines and walks through the closed history LTS replayed into Deb822/Dsc/Changes/Release/BuildInfo/PdiffIndex with size-stressed concretizations; recorded multi-object assignment histories validated by TLC (TraceDeb822Value)",
-    text="TLC enumerates every value up to length 5 (quick) / 6 (thorough) over the seven symbols x : # space tab CR LF, assigns it to the first, middle and last field of a three-field paragraph and checks on the transcription of the code that an accepted value, dumped and read back by the character-level model of iter_paragraphs (str.splitlines for str input, LF-terminated lines for file input), gives exactly one paragraph with the same field names when whitespace-only lines do not separate paragraphs, and under the default setting too when no continuation line is blank (Sound); that the three defects named by the statement imply rejection and that the validator's scanner equals the declarative characterisation (RejectComplete, RejectExact); that rejection leaves the paragraph unchanged; that the classification is independent of the length of payload runs and of the number of repetitions of a continuation line (size lemmas). A second module makes the assignment a history over three live paragraphs of two kinds of class (Files validated / Files multivalued and unvalidated) plus multivalued-key assignments to throw-away objects: the reference verdict is history-free, the closed state space is explored and memoising by value, by (key, value) or leaving an empty field behind after a rejection are shown to break it. The read-back operator has the class / constructor dimension (plain classes vs. the gpg-aware Dsc / Changes / BuildInfo whose constructor cuts the paragraph out in a pre-pass; constructor vs. iter_paragraphs; str vs. line input; strict reaching the pre-pass and the field parser), with negative controls for a strict that is dropped before the field parser and for a positional strict the pre-pass does not see (a genuine defect found by this check, repaired in /repo 2236619). Every CASE line is replayed into the real classes (Deb822, Dsc, Changes, BuildInfo, Release, PdiffIndex; the dump is read back with Deb822.iter_paragraphs and through the producing class's own constructor / iter_paragraphs from str, bytes, list, StringIO, BytesIO with strict by keyword and positionally; all three positions for what is accepted, several concretizations of x, d[k]=v and update(), every 8th/6th case size-stressed: payload runs up to 64 KiB, the first special character at offset 4095/4096/4097, 100/1000 continuation lines, field names up to 1024 characters, paragraphs of up to 1000 fields), walks through the history LTS are replayed on three live objects with outcome, all paragraphs and the read-back verdicts checked after every step, and assignment histories recorded from two live objects of five classes (values up to 40 characters re-used across keys, objects and classes, repeated after rejections, new keys, multivalued-key assignments in between) are validated by TLC on the concrete code points.",
-    note="Small scope: values <= 6 symbols exhaustively, longer ones sampled; the history model has 3 objects x 3 keys x 3 values (closed). Sizes beyond ~40 characters are never scanned by TLC: they are concretizations of small abstract cases whose expectation is length-independent (size lemmas checked by TLC for one duplication step up to the bound -- evidence, not proof, for longer runs). Unspecified (executed, never judged on acceptance): 'zone' = a lone CR followed by something that is not indentation (rejected today), 'blank' = a whitespace-only continuation line (accepted today), any assignment to a multivalued key of its class (not validated today); whatever is accepted on a validated key must still read back as one paragraph with the same keys. Default-setting read-back is judged only when no value of the paragraph has a blank continuation line. Characters outside the property's domain (NBSP, VT, FF, U+0085, U+2028, other Unicode whitespace) are never generated. Trusted: TLC, the projections (list(d.items()), key lists of the paragraphs read back), the concretizer. Spec-level negative controls and corrupted control traces are run in every check.",
+    technique="TLA+ spec over code points (Deb822Value: statement layer + transcription of validate_input, _dump_format and the iter_paragraphs reader for str and file input with both whitespace settings; Deb822ValueHist: history-free assignment over several live paragraphs with a process-wide memo as implementation-layer negative control, plus construction actions -- a live paragraph replaced by an empty one or by one built from a mapping / a paragraph of any class -- with carrier-class trust and a stuck parser flag as negative controls) model-checked by TLC; bounded-exhaustive CASE lines and walks through the closed history LTS replayed into Deb822/Dsc/Changes/Release/BuildInfo/PdiffIndex with size-stressed concretizations; recorded multi-object assignment histories validated by TLC (TraceDeb822Value)",
+    text="TLC enumerates every value up to length 5 (quick) / 6 (thorough) over the seven symbols x : # space tab CR LF, assigns it to the first, middle and last field of a three-field paragraph and checks on the transcription of the code that an accepted value, dumped and read back by the character-level model of iter_paragraphs (str.splitlines for str input, LF-terminated lines for file input), gives exactly one paragraph with the same field names when whitespace-only lines do not separate paragraphs, and under the default setting too when no continuation line is blank (Sound); that the three defects named by the statement imply rejection and that the validator's scanner equals the declarative characterisation (RejectComplete, RejectExact); that rejection leaves the paragraph unchanged; that the classification is independent of the length of payload runs and of the number of repetitions of a continuation line (size lemmas). A second module makes the assignment a history over three live paragraphs of two kinds of class (Files validated / Files multivalued and unvalidated) plus multivalued-key assignments to throw-away objects: the reference verdict is history-free, the closed state space is explored and memoising by value, by (key, value) or leaving an empty field behind after a rejection are shown to break it. With WithBuild = TRUE the same module has two construction actions -- Fresh (a live paragraph is replaced by an EMPTY one: no argument / parsing constructor over field-less input / cleared in place) and Rebuild (it is replaced by Cls(M) for a mapping M carrying another live paragraph's fields, optionally with a raw value under Files, M being a plain mapping, a paragraph where Files is ordinary or a paragraph where Files is multivalued and therefore unvalidated) -- whose reference outcome depends on the target class and the values only; trusting the carrier's class and a parser that leaves validation switched off after field-less input are the negative controls. The read-back operator has the class / constructor dimension (plain classes vs. the gpg-aware Dsc / Changes / BuildInfo whose constructor cuts the paragraph out in a pre-pass; constructor vs. iter_paragraphs; str vs. line input; strict reaching the pre-pass and the field parser), with negative controls for a strict that is dropped before the field parser and for a positional strict the pre-pass does not see (a genuine defect found by this check, repaired in /repo 2236619). Every CASE line is replayed into the real classes (Deb822, Dsc, Changes, BuildInfo, Release, PdiffIndex; the dump is read back with Deb822.iter_paragraphs and through the producing class's own constructor / iter_paragraphs from str, bytes, list, StringIO, BytesIO with strict by keyword and positionally; all three positions for what is accepted, several concretizations of x, d[k]=v and update(), every 8th/6th case size-stressed: payload runs up to 64 KiB, the first special character at offset 4095/4096/4097, 100/1000 continuation lines, field names up to 1024 characters, paragraphs of up to 1000 fields), walks through the history LTS and through the construction LTS (every multivalued field of every class playing Files, 47 ways to an empty paragraph, eight kinds of mapping plus live and throw-away paragraphs of every class as carriers) are replayed on three live objects with outcome, all paragraphs and the read-back verdicts checked after every step, and assignment histories recorded from two live objects of five classes (values up to 40 characters re-used across keys, objects and classes, repeated after rejections, new keys, multivalued-key assignments, empty-paragraph replacements and constructions from mappings in between) are validated by TLC on the concrete code points. Dumps whose line ends are aligned to byte offsets 2^k (k = 9..17, +-1) are read back through every kind of file object (buffered / unbuffered / text files, short-read readers, gzip / bz2 / lzma, spooled files, generators).",
+    note="Small scope: values <= 6 symbols exhaustively, longer ones sampled; the history model has 3 objects x 3 keys x 3 values (closed), the construction model 3 objects x 2 keys x 3 values (closed). Sizes beyond ~40 characters are never scanned by TLC: they are concretizations of small abstract cases whose expectation is length-independent (size lemmas checked by TLC for one duplication step up to the bound -- evidence, not proof, for longer runs). Unspecified (executed, never judged on acceptance): 'zone' = a lone CR followed by something that is not indentation (rejected today), 'blank' = a whitespace-only continuation line (accepted today), any assignment to a multivalued key of its class (not validated today; likewise a constructor handed such a key, never generated); whatever is accepted on a validated key must still read back as one paragraph with the same keys. Default-setting read-back is judged only when no value of the paragraph has a blank continuation line. Characters outside the property's domain (NBSP, VT, FF, U+0085, U+2028, other Unicode whitespace) are never generated. Trusted: TLC, the projections (list(d.items()), key lists of the paragraphs read back), the concretizer. Spec-level negative controls and corrupted control traces are run in every check.",
     design="5 (C08)")
 
 X = 120
@@ -193,13 +239,23 @@ WORKDIR = [os.path.join(core.VERIF, ".work")]          # real files for the file
 KNOWN_POS_STRICT = "C08-positional-strict-gpg-prepass"
 
 # ---- how a value ENTERS a paragraph
-ASSIGN_ROUTES = ("setitem", "update", "update-map", "update-kw", "setdefault", "ctor-map", "ctor-copy")
-BUILD_KINDS = ("assign", "ctor-map", "ctor-obj", "parse-str", "parse-lines", "update")
+ASSIGN_ROUTES = ("setitem", "update", "update-map", "update-kw", "setdefault", "ctor-map", "ctor-copy", "ctor-para")
+BUILD_KINDS = ("assign", "ctor-map", "ctor-obj", "parse-str", "parse-lines", "update", "empty-parsed", "empty-noarg", "empty-cleared")
 
 
-def build(clsname, pairs, kind="assign"):
+def build(clsname, pairs, kind="assign", sel=0):
     """a paragraph of class clsname holding `pairs`, created through one of the public ways"""
     cls = get_class(clsname)
+    if kind.startswith("empty-"):                            # an EMPTY paragraph first (every way to get one), then filled
+        old = None
+        if kind == "empty-cleared":
+            old = cls()
+            for k, v in pairs[::-1]:
+                old[k] = v
+        d, _ = make_empty(clsname, kind[6:], sel, old)
+        for k, v in pairs:
+            d[k] = v
+        return d
     if kind == "ctor-map":
         return cls(dict(pairs))
     if kind == "ctor-obj":                                   # from another paragraph (mapping protocol)
@@ -331,10 +387,89 @@ GPG_CLASSES = ("Dsc", "Changes", "BuildInfo", "Sources")   # _gpg_multivalued: a
 LENIENT_ITER = ("Sources", "Packages")                     # their iter_paragraphs defaults to the lenient setting
 # input forms: str, bytes, text.splitlines(True), text.splitlines(), generator of lines, io.StringIO,
 # io.BytesIO, real text file, real binary file
-WAY_FORMS = ("s", "y", "l", "n", "g", "f", "b", "F", "R")
+# ... and (notes/SIZE_STRESS.md part 4) every other KIND of file object the API accepts: a real file opened
+# unbuffered, io.BufferedReader over a raw stream that returns SHORT reads, gzip / bz2 / lzma wrappers over
+# compressed bytes (fileno() names the compressed file), tempfile.SpooledTemporaryFile, a generator of
+# bytes lines
+WAY_FORMS = ("s", "y", "l", "n", "g", "f", "b", "F", "R", "U", "H", "Z", "J", "X", "P", "c")
 FORM_SRC = {"s": "text", "y": "text.encode()", "l": "text.splitlines(True)", "n": "text.splitlines()",
             "g": "(l for l in text.splitlines(True))", "f": "io.StringIO(text)", "b": "io.BytesIO(text.encode())",
-            "F": "open(file, encoding='utf-8')", "R": "open(file, 'rb')"}
+            "F": "open(file, encoding='utf-8')", "R": "open(file, 'rb')", "U": "open(file, 'rb', buffering=0)",
+            "H": "io.BufferedReader(raw stream giving 1..7 bytes per read)", "Z": "gzip.GzipFile(file.gz)",
+            "J": "bz2.BZ2File(file.bz2)", "X": "lzma.LZMAFile(file.xz)", "P": "tempfile.SpooledTemporaryFile holding the bytes",
+            "c": "(l for l in text.encode().splitlines(True))"}
+FILE_FORMS = ("f", "b", "F", "R", "U", "H", "Z", "J", "X", "P")
+WAY_STATS = {}                                    # form -> number of read-backs through it (evidence only)
+
+
+def _short_raw(data, sel):
+    """a raw stream that hands out 1..7 bytes per read (io.BufferedReader has to assemble the lines)"""
+    class ShortRaw(io.RawIOBase):
+        def __init__(self):
+            io.RawIOBase.__init__(self)
+            self.pos = 0
+            self.n = 0
+
+        def readable(self):
+            return True
+
+        def readinto(self, b):
+            self.n += 1
+            k = min(len(b), 1 + (self.n * 5 + sel) % 7, len(data) - self.pos)
+            b[:k] = data[self.pos:self.pos + k]
+            self.pos += k
+            return k
+    return ShortRaw()
+
+
+def open_form(form, text, enc="utf-8", sel=0):
+    """(source object for the parsing entry points, [objects to close]) for one input form"""
+    import tempfile
+    if form == "s":
+        return text, []
+    if form == "y":
+        return text.encode(enc), []
+    if form == "l":
+        return text.splitlines(True), []
+    if form == "n":
+        return text.splitlines(), []
+    if form == "g":
+        return (ln for ln in text.splitlines(True)), []
+    if form == "c":
+        return (ln for ln in text.encode(enc).splitlines(True)), []
+    if form == "f":
+        return io.StringIO(text), []
+    if form == "b":
+        return io.BytesIO(text.encode(enc)), []
+    if form == "H":
+        return io.BufferedReader(_short_raw(text.encode(enc), sel), buffer_size=16 if sel % 2 else 8192), []
+    if form == "P":
+        sp = tempfile.SpooledTemporaryFile(max_size=(64 if sel % 2 else 1 << 20), mode="w+b", dir=WORKDIR[0])
+        sp.write(text.encode(enc))
+        sp.seek(0)
+        return sp, [sp]
+    if form in "ZJX":
+        import bz2
+        import gzip
+        import lzma
+        tmp = tempfile.TemporaryFile(mode="w+b", dir=WORKDIR[0])
+        raw = text.encode(enc)
+        tmp.write({"Z": gzip.compress, "J": bz2.compress, "X": lzma.compress}[form](raw))
+        tmp.seek(0)
+        src = {"Z": lambda f: gzip.GzipFile(fileobj=f, mode="rb"), "J": bz2.BZ2File, "X": lzma.LZMAFile}[form](tmp)
+        return src, [src, tmp]
+    if form == "U":
+        tmp = tempfile.NamedTemporaryFile(mode="w+b", dir=WORKDIR[0])
+        tmp.write(text.encode(enc))
+        tmp.flush()
+        src = open(tmp.name, "rb", buffering=0)
+        return src, [src, tmp]
+    tmp = tempfile.TemporaryFile(mode="w+b", dir=WORKDIR[0])
+    tmp.write(text.encode("utf-8"))
+    tmp.seek(0)
+    if form == "R":
+        return tmp, [tmp]
+    return io.TextIOWrapper(tmp, encoding="utf-8", newline="\n"), [tmp]
 # (route, form, strict by keyword / positionally, option): options are fields= naming every field,
 # shared_storage=True (documented as ignored), bytes in latin-1 with encoding=, strict omitted
 WAYS = [(route, form, pas, "") for route in ("ctor", "iter") for form in WAY_FORMS for pas in ("kw", "pos")] + [
@@ -364,7 +499,7 @@ def is_known_pos_strict(clsname, way, ws_default):
     """the signature of the deviation repaired in /repo 2236619: gpg-aware class built from a list /
     file with strict given POSITIONALLY"""
     route, form, pas, opt = way
-    return clsname in GPG_CLASSES and route == "ctor" and form in "lngfbFR" and pas == "pos" and not ws_default
+    return clsname in GPG_CLASSES and route == "ctor" and form not in "sy" and pas == "pos" and not ws_default
 
 
 def effective_default(clsname, way, ws_default):
@@ -376,10 +511,9 @@ def effective_default(clsname, way, ws_default):
     return ws_default
 
 
-def read_way(clsname, text, way, ws_default, keys=None):
+def read_way(clsname, text, way, ws_default, keys=None, sel=0):
     """the dump read back by the class that produced it: [st, paras] like read_back (a constructor
     gives one object = one key list)"""
-    import tempfile
     route, form, pas, opt = way
     cls = get_class(clsname)
     enc = "utf-8"
@@ -389,27 +523,10 @@ def read_way(clsname, text, way, ws_default, keys=None):
             enc = "iso8859-1"
         except UnicodeEncodeError:
             pass
-    tmp = None
+    closers = []
+    WAY_STATS[form] = WAY_STATS.get(form, 0) + 1
     try:
-        if form == "s":
-            src = text
-        elif form == "y":
-            src = text.encode(enc)
-        elif form == "l":
-            src = text.splitlines(True)
-        elif form == "n":
-            src = text.splitlines()
-        elif form == "g":
-            src = (ln for ln in text.splitlines(True))
-        elif form == "f":
-            src = io.StringIO(text)
-        elif form == "b":
-            src = io.BytesIO(text.encode(enc))
-        else:
-            tmp = tempfile.TemporaryFile(mode="w+b", dir=WORKDIR[0])
-            tmp.write(text.encode("utf-8"))
-            tmp.seek(0)
-            src = tmp if form == "R" else io.TextIOWrapper(tmp, encoding="utf-8", newline="\n")
+        src, closers = open_form(form, text, enc, sel)
         strict = None if ws_default else dict(WS_FALSE)
         fields = list(keys) if (opt == "fields" and keys is not None) else None
         with warnings.catch_warnings():
@@ -432,9 +549,9 @@ def read_way(clsname, text, way, ws_default, keys=None):
     except Exception as e:                                           # noqa: BLE001
         return {"st": "EXC:" + type(e).__name__, "paras": []}
     finally:
-        if tmp is not None:
+        for f in closers:
             try:
-                tmp.close()
+                f.close()
             except Exception:                                        # noqa: BLE001
                 pass
 
@@ -444,11 +561,19 @@ def pick_ways(sel, n):
     return [WAYS[(sel * 7 + i * 11) % len(WAYS)] for i in range(n)]
 
 
-def judge_ways(clsname, text, keys, blank, sel, n, known=None):
+FILE_WAYS = [w for w in WAYS if w[1] in FILE_FORMS and w[3] in ("", "shared")]
+
+
+def pick_file_ways(sel, n):
+    """n of the ways that read from a file object, rotating through every kind of file object"""
+    return [FILE_WAYS[(sel * 5 + i * 9) % len(FILE_WAYS)] for i in range(n)]
+
+
+def judge_ways(clsname, text, keys, blank, sel, n, known=None, ways=None):
     """read `text` back through n rotating ways of the producing class; returns (message or None):
     lenient setting for every accepted value, default setting when no continuation line is blank"""
     one = {"st": "ok", "paras": [keys]}
-    for way in pick_ways(sel, n):
+    for way in (pick_ways(sel, n) if ways is None else ways):
         for ws_default in (False, True):
             if way[3] == "omit":
                 if ws_default:
@@ -458,7 +583,7 @@ def judge_ways(clsname, text, keys, blank, sel, n, known=None):
                 eff_default = ws_default
             if eff_default and blank:
                 continue                                             # not decided by the statement
-            got = read_way(clsname, text, way, ws_default, keys)
+            got = read_way(clsname, text, way, ws_default, keys, sel)
             if got != one:
                 msg = "read back with %s gives %s" % (way_name(clsname, way, ws_default), _rbshow(got))
                 if blank and known is not None and is_known_pos_strict(clsname, way, ws_default):
@@ -539,6 +664,7 @@ class Conc:
         self.xs = [["x", 1] for c in value if c == X]
         self.rep = None
         self.dims = []
+        self.align = None
 
     @classmethod
     def random(cls, rng, value, pos):
@@ -566,7 +692,7 @@ class Conc:
                 dims += ["offset", "offset"]
         if case.get("segs"):
             dims += ["lines", "lines"]
-        dims += ["longkey", "fields"]
+        dims += ["longkey", "fields", "align", "align"]
         chosen = [rng.choice(dims)]
         if rng.random() < 0.25:
             chosen.append(rng.choice(dims))
@@ -597,7 +723,39 @@ class Conc:
                 keys[c.idx] = c.keys[pos - 1] if c.keys[pos - 1].lower() not in taken else keys[c.idx]
                 c.keys = keys
                 c.nb = [pick_x(rng) * rng.choice([1, 1, 2, 8]) for _ in range(n)]
+        if "align" in c.dims:                          # last: the padding depends on everything else
+            c.set_align(rng, v, allow_big)
         return c
+
+    def set_align(self, rng, v, allow_big):
+        """block-boundary alignment (notes/SIZE_STRESS.md part 4): the value of the FIRST field is padded so
+        that a line end of the dumped paragraph -- inside the assigned value, at the end of the assigned
+        field, between the two fields in front of it, at the very end of the text -- falls exactly at, one
+        before or one after a byte offset 2^k (k = 9..17).  The layout is computed from the documented dump
+        format only to choose the padding; whether the offset was hit is recorded from the real dump."""
+        if self.idx == 0:
+            self.idx = 1
+        val = self.value(v)
+        vals = [val if i == self.idx else n for i, n in enumerate(self.nb)]
+        pieces = [(k + ":" + ("" if (not x or x[0] == "\n") else " ") + x + "\n").encode("utf-8") for k, x in zip(self.keys, vals)]
+        start = sum(len(b) for b in pieces[:self.idx])
+        inner = [start + i + 1 for i, ch in enumerate(pieces[self.idx][:-1]) if ch == 10]
+        cands = {"field-end": start + len(pieces[self.idx]), "before-field": start, "text-end": sum(len(b) for b in pieces)}
+        if inner:
+            cands["inside-value"] = rng.choice(inner)
+            cands["inside-value-last"] = inner[-1]
+        where = rng.choice(sorted(cands))
+        cur = cands[where]
+        delta = rng.choice([-1, 0, 0, 1])
+        ks = [k for k in ([9, 10, 11, 12, 12, 13, 13, 13, 14, 15] + ([16, 17] if allow_big and rng.random() < 0.15 else []))
+              if (1 << k) + delta >= cur]
+        if not ks:
+            self.dims.remove("align")
+            return
+        k = rng.choice(ks)
+        target = (1 << k) + delta
+        self.nb[0] = self.nb[0] + rng.choice("pqZ0-") * (target - cur)
+        self.align = {"k": k, "delta": delta, "where": where, "offset": target}
 
     def value(self, v):
         it = iter(self.xs)
@@ -614,12 +772,13 @@ class Conc:
         return "".join(pieces)
 
     def to_json(self):
-        return {"keys": self.keys, "nb": self.nb, "idx": self.idx, "xs": self.xs, "rep": self.rep, "dims": self.dims}
+        return {"keys": self.keys, "nb": self.nb, "idx": self.idx, "xs": self.xs, "rep": self.rep, "dims": self.dims, "align": self.align}
 
     @classmethod
     def from_json(cls, j):
         c = cls.__new__(cls)
         c.keys, c.nb, c.idx, c.xs, c.rep, c.dims = list(j["keys"]), list(j["nb"]), j["idx"], [list(x) for x in j["xs"]], j.get("rep"), j.get("dims", [])
+        c.align = j.get("align")
         return c
 
 
@@ -641,22 +800,41 @@ def check_case(case, clsname, conc, route="setitem", stats=None, wsel=0, known=N
     cls = case["cls"]
     keys = conc.keys
     idx = conc.idx
+    carrier_cls = None
+    if route == "ctor-para":
+        # the value comes in a PARAGRAPH of another class, under a key that is multivalued -- never
+        # validated -- there and an ordinary field of the class being built (the base class every other time)
+        if wsel % 2 == 0:
+            clsname = "Deb822"
+        fkeys = [k for k in FAMILY_KEYS if clsname in family(k)[1]]
+        fkey = fkeys[(wsel // 2) % len(fkeys)]
+        keys = list(keys)
+        keys[idx] = fkey if (wsel // 4) % 3 else fkey.lower()
+        carrier_cls = family(fkey)[0][(wsel // 8) % len(family(fkey)[0])]
     start = [[k, n] for k, n in zip(keys, conc.nb)]
     stored = [[k, (v if i == idx else n)] for i, (k, n) in enumerate(zip(keys, conc.nb))]
     ksh = show(keys) if len(keys) <= 4 else "%d fields" % len(keys)
-    bkind = BUILD_KINDS[wsel % len(BUILD_KINDS)] if wsel % 3 == 0 else "assign"
+    bkind = BUILD_KINDS[(wsel // 3) % len(BUILD_KINDS)] if wsel % 3 == 0 else "assign"
     how = {"setitem": "d[%s] = %s", "update": "d.update([(%s, %s)])", "update-map": "d.update({%s: %s})", "update-kw": "d.update(**{%s: %s})",
-           "setdefault": "d[%s] = %s", "ctor-map": "%s({..., %%s: %%s, ...})" % clsname, "ctor-copy": "%s(Deb822 holding %%s: %%s)" % clsname}[route]
+           "setdefault": "d[%s] = %s", "ctor-map": "%s({..., %%s: %%s, ...})" % clsname, "ctor-copy": "%s(Deb822Dict holding %%s: %%s)" % clsname,
+           "ctor-para": "%s(%s paragraph holding %%s: %%s)" % (clsname, carrier_cls)}[route]
     where = "%s %s (field %d of %s%s%s)" % (clsname, how % (short(keys[idx], 40), short(v)), idx + 1, ksh,
                                           ", size-stressed: " + "+".join(conc.dims) if conc.dims else "",
                                           ", start paragraph via " + bkind if bkind != "assign" else "")
     drift = []
-    if route in ("ctor-map", "ctor-copy"):
+    if route in ("ctor-map", "ctor-copy", "ctor-para"):
         # the value enters through the constructor, together with its neighbours
         d = None
+        carrier = None
+        if route == "ctor-para":
+            carrier = para_carrier(carrier_cls, stored)
+            if carrier is None:
+                return None, drift                                   # that class did not take the raw string: not decided
         try:
             if route == "ctor-map":
                 d = get_class(clsname)(dict(stored))
+            elif route == "ctor-para":
+                d = get_class(clsname)(carrier)
             else:
                 from debian.deb822 import Deb822Dict
                 d = get_class(clsname)(Deb822Dict(stored))           # (Deb822Dict does not validate)
@@ -670,7 +848,7 @@ def check_case(case, clsname, conc, route="setitem", stats=None, wsel=0, known=N
             start = start[:-1]                                       # setdefault assigns only when the field is absent
             where = where.replace("d[", "d.setdefault[absent] d[", 1)
         try:
-            d = build(clsname, start, bkind)
+            d = build(clsname, start, bkind, wsel // 27)
         except Exception as e:                                       # noqa: BLE001
             return "%s: building the start paragraph raised %s" % (where, type(e).__name__), drift
         res = assign(d, keys[idx], v, route)
@@ -741,7 +919,15 @@ def check_case(case, clsname, conc, route="setitem", stats=None, wsel=0, known=N
     if len(text or "") >= 20000:
         nways = min(nways, 1)
     kn = [] if known is not None else None
-    msg = judge_ways(clsname, text, keys, case["blank"], wsel, nways, kn)
+    ways = None
+    if conc.align and nways:                                 # aligned text: through two kinds of file object
+        tb = (text or "").encode("utf-8")
+        hit = tb[conc.align["offset"] - 1:conc.align["offset"]] == b"\n"
+        if stats is not None:
+            ak = ("aligned", "line end at 2^%d%+d %s" % (conc.align["k"], conc.align["delta"], "hit" if hit else "missed"))
+            stats[ak] = stats.get(ak, 0) + 1
+        ways = pick_file_ways(wsel, 2)
+    msg = judge_ways(clsname, text, keys, case["blank"], wsel, nways, kn, ways)
     if kn:
         for m in kn:
             known.append(({"kind": "case", "case": case, "cls": clsname, "conc": conc.to_json(), "route": route,
@@ -762,7 +948,8 @@ def replay_chunk(payload):
     seed, tier, off, chunk = payload
     quick = tier == "quick"
     rng = random.Random("C08-%s-cases-%d" % (seed, off))
-    out = {"n": 0, "stats": {}, "drift": [], "violations": [], "stress": {}, "known": []}
+    out = {"n": 0, "stats": {}, "drift": [], "violations": [], "stress": {}, "known": [], "forms": {}}
+    WAY_STATS.clear()
     known = []
     stats = {}
     big_left = 2 if quick else 8                      # 64 KiB values / 1000 lines / 1000 fields per chunk
@@ -805,6 +992,7 @@ def replay_chunk(payload):
                     break
         out["stats"] = {"%s/%s" % k: n for k, n in stats.items()}
         out["known"] = [len(known), known[:1]]
+        out["forms"] = dict(WAY_STATS)
     except Exception:                                                # noqa: BLE001  harness bug, not an observation
         out["crash"] = traceback.format_exc()
     return out
@@ -825,8 +1013,16 @@ def _rbshow(r):
 # ------------------------------------------------------------------ (a') LTS walks: histories on live objects
 
 MODEL_KEYS = {(65,): "A", (78,): "N", (70, 105, 108, 101, 115): "F"}
-S_CLASSES = ("Dsc", "Changes", "Sources")
-D_CLASSES = ("Deb822", "Deb822", "Release", "BuildInfo", "PdiffIndex", "Packages", "Removals")
+# the model's key "Files" = a field that is MULTIVALUED (not validated) in the classes "S" and an ordinary,
+# validated field in the classes "D".  Every multivalued field of every class can play it (the S / D sides
+# follow from the table MULTI below); Files with Dsc / Changes / Sources is the most frequent one.
+FAMILY_KEYS = ("Files", "Files", "Files", "Checksums-Sha256", "Checksums-Sha1", "SHA256", "MD5Sum", "SHA1-History", "Checksums-Md5")
+
+
+def family(fkey):
+    """(classes where fkey is multivalued, classes where it is an ordinary field)"""
+    sset = tuple(c for c in ALL_CLASSES if fkey.lower() in MULTI[c])
+    return sset, tuple(c for c in ALL_CLASSES if c not in sset)
 
 
 class HistConc:
@@ -836,8 +1032,11 @@ class HistConc:
     objects and classes)"""
 
     def __init__(self, rng, values, stress):
-        # "D" of the model: a class in which Files is an ordinary, validated field
-        self.classes = [rng.choice(D_CLASSES), rng.choice(S_CLASSES), rng.choice(S_CLASSES)]
+        # "D" of the model: a class in which Files is an ordinary, validated field (the base class Deb822
+        # more often than the others: every other class is a subclass of it)
+        fkey = rng.choice(FAMILY_KEYS)
+        self.sset, self.dset = family(fkey)
+        self.classes = ["Deb822" if rng.random() < 0.35 else rng.choice(self.dset), rng.choice(self.sset), rng.choice(self.sset)]
         # entry points, mixed within the history: how each object is created, which assignment
         # routes / dump forms / copies come up at which step
         self.builds = [rng.choice(BUILD_KINDS) for _ in self.classes]
@@ -847,7 +1046,7 @@ class HistConc:
         names = rng.sample(KEY_POOL, 2)
         self.keymap = {"A": long_key(rng, klen, taken) if klen else names[0],
                        "N": long_key(rng, klen + 1, taken) if klen else names[1],
-                       "F": rng.choice(["Files", "files", "FILES"])}
+                       "F": rng.choice([fkey, fkey, fkey.lower(), fkey.upper()])}
         taken |= {k.lower() for k in self.keymap.values()}
         npad = heavy(rng, [0, 1, 2, 9, 15, 16, 31, 32, 97, 98, 254]) if (stress and rng.random() < 0.4) else rng.choice([0, 0, 0, 1, 2])
         self.pad = [[long_key(rng, rng.choice([2, 7, 8, 16]), taken), simple_value(rng)] for _ in range(npad)]
@@ -867,11 +1066,14 @@ class HistConc:
     def key(self, k):
         return self.keymap[MODEL_KEYS[tuple(k)]]
 
-    def para(self, model_para):
-        return [list(f) for f in self.pad] + [[self.key(f["k"]), self.valmap[tuple(f["v"])]] for f in model_para]
+    def para(self, model_para, pad=True):
+        """the concrete paragraph of a model paragraph; the padding fields belong to the START objects (and to
+        what is built from them), a paragraph that started empty has none"""
+        return ([list(f) for f in self.pad] if pad else []) + [[self.key(f["k"]), self.valmap[tuple(f["v"])]] for f in model_para]
 
     def to_json(self):
         return {"classes": self.classes, "keymap": self.keymap, "pad": self.pad, "builds": self.builds, "rsel": self.rsel,
+                "sset": list(self.sset), "dset": list(self.dset),
                 "valmap": [[list(k), v] for k, v in self.valmap.items()]}
 
     @classmethod
@@ -879,6 +1081,7 @@ class HistConc:
         c = cls.__new__(cls)
         c.classes, c.keymap, c.pad = list(j["classes"]), dict(j["keymap"]), [list(f) for f in j["pad"]]
         c.builds, c.rsel = list(j.get("builds", ["assign"] * 3)), j.get("rsel", 0)
+        c.sset, c.dset = tuple(j.get("sset", ("Dsc", "Changes", "Sources"))), tuple(j.get("dset", ("Deb822", "Release", "BuildInfo", "PdiffIndex", "Packages", "Removals")))
         c.valmap = {tuple(k): v for k, v in j["valmap"]}
         return c
 
@@ -910,7 +1113,244 @@ def gen_walk(rng, g, n):
     return path
 
 
+def gen_walk_build(rng, g, n):
+    """walk through the LTS with construction (Fresh / Rebuild), biased towards the scenarios the
+    construction layer is about: fill a paragraph that has just become empty (bad values first), assign
+    to a paragraph that has just been built from a mapping, hand a raw value to a constructor right
+    after it went to a multivalued key, repeat a rejected construction"""
+    s = g.init
+    path = []
+    prev = None
+    for _ in range(n):
+        outs = g.out[s]
+        by = {}
+        for x in outs:
+            by.setdefault(x["op"], []).append(x)
+        e = None
+        r = rng.random()
+        if prev is not None:
+            same_obj = [x for x in by.get("assign", []) if x["args"][0] == prev["args"][0]] if prev["op"] != "scratch" else []
+            if prev["op"] == "fresh" and r < 0.8:
+                bad = [x for x in same_obj if x["res"] != "ok"]
+                e = rng.choice(bad if (bad and rng.random() < 0.6) else same_obj)
+            elif prev["op"] == "rebuild" and r < 0.35:
+                e = rng.choice(same_obj)
+            elif prev["op"] == "rebuild" and prev["res"] != "ok" and r < 0.5:
+                e = next(x for x in outs if x["op"] == "rebuild" and x["args"] == prev["args"])
+            elif prev["op"] == "scratch" and r < 0.7:
+                cand = [x for x in by.get("rebuild", []) if x["args"][3] == prev["args"][2]] + \
+                       [x for x in by.get("assign", []) if x["args"][2] == prev["args"][2]]
+                e = rng.choice(cand)
+            elif prev["op"] == "assign" and prev["res"] != "ok" and r < 0.2:
+                e = next(x for x in outs if x["op"] == "assign" and x["args"] == prev["args"])
+        if e is None:
+            op = rng.choices(["assign", "scratch", "fresh", "rebuild"], weights=[38, 5, 17, 40])[0]
+            if op == "rebuild":
+                # a raw value under the multivalued key, a paragraph as the carrier, the D object as the target
+                e = rng.choices(by[op], weights=[(3 if x["args"][3] else 1) * (2 if x["args"][2] == "S" else 1) * (2 if x["args"][0] == 1 else 1)
+                                                 for x in by[op]])[0]
+            else:
+                e = rng.choice(by[op])
+        path.append(e)
+        prev = e
+        s = e["_t"]
+    return path
+
+
 WALK_ROUTES = ("setitem", "update", "setdefault", "update-map", "setitem", "update-kw", "setdefault")
+
+# ---- every way to obtain an EMPTY paragraph (model action Fresh / trace event "fresh")
+COMMENT_8K = "#" + "c" * 8190 + "\n"                  # a comment line whose end sits exactly at offset 8192
+EMPTY_WAYS = {
+    # no input at all / an empty mapping / a copy of an empty paragraph
+    "noarg": ("Cls()", "Cls(None)", "Cls({})", "Cls(Deb822Dict())", "Cls(sequence=None)", "Cls(Deb822())", "Cls().copy()",
+              "copy.deepcopy(Cls())", "pickle(Cls())", "Cls(OrderedDict())", "Cls(fields=['Source'])", "Cls(Cls())", "type(old)()"),
+    # the PARSING constructor over input without any field
+    "parsed": ("Cls([])", "Cls('')", "Cls(b'')", "Cls(io.StringIO(''))", "Cls(io.BytesIO(b''))", "Cls(empty text file)",
+               "Cls(empty binary file)", "Cls('\\n\\n')", "Cls(['\\n'])", "Cls([b'\\n', b'\\n'])", "Cls('# comment\\n')",
+               "Cls(['# c1\\n', '\\n', '# c2'])", "Cls('  \\n\\t\\n')", "Cls('\\r\\n\\r\\n')", "Cls(iter([]))", "Cls(generator of nothing)",
+               "Cls('Source: a\\n', fields=['Zz'])", "Cls([], strict=...)", "Cls('', None, None, 'utf-8', strict)", "Cls(sequence=[])",
+               "Cls(io.BytesIO(b'# c\\n\\n'))", "Cls(gzip file of blank lines)", "Cls(short-read reader of comments)",
+               "Cls(8192-byte comment line)", "Cls(io.StringIO(8192-byte comment + blank line))", "Cls(unbuffered empty file)",
+               "Cls(SpooledTemporaryFile, empty)", "Cls('\\n' * 8192)", "Cls(bz2 file, empty)", "Cls(b'#\\n#\\n', encoding='utf-8')"),
+    # the SAME object emptied
+    "cleared": ("d.clear()", "del d[k] for every k", "d.pop(k) for every k", "d.popitem() until empty"),
+}
+
+
+def make_empty(clsname, how, sel, old=None):
+    """an EMPTY paragraph of class clsname through one of the public ways (rotating with sel); returns
+    (object, description).  "cleared" empties and returns `old` itself."""
+    import collections
+    import copy
+    import pickle
+    from debian.deb822 import Deb822, Deb822Dict
+    cls = get_class(clsname)
+    names = EMPTY_WAYS[how]
+    name = names[sel % len(names)]
+    strict = dict(WS_FALSE)
+    if how == "cleared":
+        d = old
+        if name == "d.clear()":
+            d.clear()
+        elif name.startswith("del"):
+            for k in list(d.keys()):
+                del d[k]
+        elif name.startswith("d.pop(k)"):
+            for k in list(d.keys()):
+                d.pop(k)
+        else:
+            while len(d):
+                d.popitem()
+        return d, name
+    closers = []
+    try:
+        if how == "noarg":
+            d = {"Cls()": lambda: cls(), "Cls(None)": lambda: cls(None), "Cls({})": lambda: cls({}),
+                 "Cls(Deb822Dict())": lambda: cls(Deb822Dict()), "Cls(sequence=None)": lambda: cls(sequence=None),
+                 "Cls(Deb822())": lambda: cls(Deb822()), "Cls().copy()": lambda: cls().copy(),
+                 "copy.deepcopy(Cls())": lambda: copy.deepcopy(cls()), "pickle(Cls())": lambda: pickle.loads(pickle.dumps(cls())),
+                 "Cls(OrderedDict())": lambda: cls(collections.OrderedDict()), "Cls(fields=['Source'])": lambda: cls(fields=["Source"]),
+                 "Cls(Cls())": lambda: cls(cls()),
+                 "type(old)()": lambda: (type(old) if old is not None else cls)()}[name]()
+            return d, name.replace("Cls", clsname)
+        if name == "Cls(empty text file)":
+            src, closers = open_form("F", "")
+        elif name == "Cls(empty binary file)":
+            src, closers = open_form("R", "")
+        elif name == "Cls(unbuffered empty file)":
+            src, closers = open_form("U", "")
+        elif name == "Cls(SpooledTemporaryFile, empty)":
+            src, closers = open_form("P", "", sel=sel)
+        elif name == "Cls(bz2 file, empty)":
+            src, closers = open_form("J", "")
+        elif name == "Cls(gzip file of blank lines)":
+            src, closers = open_form("Z", "\n \n\n")
+        elif name == "Cls(short-read reader of comments)":
+            src, closers = open_form("H", "# one\n#two\n\n# three", sel=sel)
+        else:
+            src = {"Cls([])": lambda: [], "Cls('')": lambda: "", "Cls(b'')": lambda: b"", "Cls(io.StringIO(''))": lambda: io.StringIO(""),
+                   "Cls(io.BytesIO(b''))": lambda: io.BytesIO(b""), "Cls('\\n\\n')": lambda: "\n\n", "Cls(['\\n'])": lambda: ["\n"],
+                   "Cls([b'\\n', b'\\n'])": lambda: [b"\n", b"\n"], "Cls('# comment\\n')": lambda: "# comment\n",
+                   "Cls(['# c1\\n', '\\n', '# c2'])": lambda: ["# c1\n", "\n", "# c2"], "Cls('  \\n\\t\\n')": lambda: "  \n\t\n",
+                   "Cls('\\r\\n\\r\\n')": lambda: "\r\n\r\n", "Cls(iter([]))": lambda: iter([]),
+                   "Cls(generator of nothing)": lambda: (x for x in ()), "Cls('Source: a\\n', fields=['Zz'])": lambda: "Source: a\n",
+                   "Cls([], strict=...)": lambda: [], "Cls('', None, None, 'utf-8', strict)": lambda: "", "Cls(sequence=[])": lambda: [],
+                   "Cls(io.BytesIO(b'# c\\n\\n'))": lambda: io.BytesIO(b"# c\n\n"), "Cls(8192-byte comment line)": lambda: COMMENT_8K,
+                   "Cls(io.StringIO(8192-byte comment + blank line))": lambda: io.StringIO(COMMENT_8K + "\n"),
+                   "Cls('\\n' * 8192)": lambda: "\n" * 8192, "Cls(b'#\\n#\\n', encoding='utf-8')": lambda: b"#\n#\n"}[name]()
+        with warnings.catch_warnings():
+            warnings.simplefilter("ignore")
+            if "fields=['Zz']" in name:
+                d = cls(src, fields=["Zz"])
+            elif name == "Cls([], strict=...)":
+                d = cls(src, strict=strict)
+            elif "None, None, 'utf-8', strict" in name:
+                d = cls(src, None, None, "utf-8", strict)
+            elif name == "Cls(sequence=[])":
+                d = cls(sequence=src)
+            elif "encoding='utf-8'" in name:
+                d = cls(src, encoding="utf-8")
+            else:
+                d = cls(src)
+        return d, name.replace("Cls", clsname)
+    finally:
+        for f in closers:
+            try:
+                f.close()
+            except Exception:                                        # noqa: BLE001
+                pass
+
+
+# ---- every kind of MAPPING a paragraph can be built from (model action Rebuild / trace event "build")
+PLAIN_CARRIERS = ("dict", "Deb822Dict", "OrderedDict", "user-defined Mapping", "UserDict", "MappingProxyType", "user-defined Mapping with lazy items()", "ChainMap")
+BUILD_STYLES = ("Cls(M)", "Cls(sequence=M)", "Cls(M, None)", "Cls(M, fields=None, encoding='utf-8')", "Cls(M, strict=...)",
+                "Cls(M, None, None, 'utf-8', None)")
+
+
+def _custom_mapping(pairs, lazy):
+    """a user-defined collections.abc.Mapping (nothing but the abstract methods; lazy: its items() is a
+    one-shot iterator)"""
+    import collections.abc
+
+    class CustomMapping(collections.abc.Mapping):
+        def __init__(self):
+            self._keys = [k for k, _ in pairs]
+            self._d = dict(pairs)
+
+        def __getitem__(self, k):
+            return self._d[k]
+
+        def __iter__(self):
+            return iter(self._keys)
+
+        def __len__(self):
+            return len(self._keys)
+
+        if lazy:
+            def items(self):
+                return iter([(k, self._d[k]) for k in self._keys])
+    return CustomMapping()
+
+
+def plain_carrier(pairs, sel):
+    import collections
+    import types
+    from debian.deb822 import Deb822Dict
+    name = PLAIN_CARRIERS[sel % len(PLAIN_CARRIERS)]
+    pairs = [tuple(kv) for kv in pairs]
+    if name == "dict":
+        return dict(pairs), name
+    if name == "Deb822Dict":
+        return Deb822Dict(pairs), name
+    if name == "OrderedDict":
+        return collections.OrderedDict(pairs), name
+    if name == "UserDict":
+        return collections.UserDict(pairs), name
+    if name == "MappingProxyType":
+        return types.MappingProxyType(dict(pairs)), name
+    if name == "ChainMap":
+        return collections.ChainMap(collections.OrderedDict(pairs)), name
+    return _custom_mapping(pairs, lazy="lazy" in name), name
+
+
+def para_carrier(clsname, pairs):
+    """a throw-away paragraph of class clsname filled by ASSIGNMENT (a field that is multivalued in that
+    class takes a raw string unvalidated); None when it does not hold exactly `pairs` afterwards -- what
+    such a class does with a raw string is not decided by the statement"""
+    try:
+        d = get_class(clsname)()
+        for k, v in pairs:
+            d[k] = v
+        if project(d) != [list(kv) for kv in pairs]:
+            return None
+        return d
+    except Exception:                                                # noqa: BLE001
+        return None
+
+
+def build_from(clsname, carrier, style):
+    """(new object or None, "ok" | "ValueError" | "EXC:<type>")"""
+    cls = get_class(clsname)
+    name = BUILD_STYLES[style % len(BUILD_STYLES)]
+    try:
+        if name == "Cls(M)":
+            d = cls(carrier)
+        elif name == "Cls(sequence=M)":
+            d = cls(sequence=carrier)
+        elif name == "Cls(M, None)":
+            d = cls(carrier, None)
+        elif name.startswith("Cls(M, fields=None"):
+            d = cls(carrier, fields=None, encoding="utf-8")
+        elif name == "Cls(M, strict=...)":
+            d = cls(carrier, strict=dict(WS_FALSE))
+        else:
+            d = cls(carrier, None, None, "utf-8", None)
+        return d, "ok"
+    except ValueError:
+        return None, "ValueError"
+    except Exception as e:                                           # noqa: BLE001
+        return None, "EXC:" + type(e).__name__
 
 
 def run_walk(path, init_state, hc, full_every=6):
@@ -925,7 +1365,7 @@ def run_walk(path, init_state, hc, full_every=6):
     objs = []
     try:
         for o, clsname in enumerate(hc.classes):
-            objs.append(build(clsname, hc.para(init_state[o]), hc.builds[o]))
+            objs.append(build(clsname, hc.para(init_state[o]), hc.builds[o], hc.rsel + 5 * o))
     except Exception as e:                                           # noqa: BLE001
         return "building the start paragraphs (%s) raised %s" % (hc.builds, type(e).__name__), 0
     prev_items = [project(d) for d in objs]
@@ -933,11 +1373,16 @@ def run_walk(path, init_state, hc, full_every=6):
         if prev_items[o] != hc.para(init_state[o]):
             return "start paragraph %d (created via %s) reads %s" % (o + 1, hc.builds[o], short(show(prev_items[o]), 200)), 0
     ghosts = []                                                      # (step, how, original object, its items)
+    haspad = [True] * len(objs)                                      # the padding fields go with the start objects
     n = 0
     for i, e in enumerate(path):
         n += 1
-        o, k, v = e["args"]
-        val = hc.valmap[tuple(v)]
+        if e["op"] in ("fresh", "rebuild"):
+            o = e["args"][0]
+            k = v = val = None
+        else:
+            o, k, v = e["args"]
+            val = hc.valmap[tuple(v)]
         if (i + hc.rsel) % 5 == 2:                                   # carry a live object over into a new one
             q = (i + hc.rsel) % len(objs)
             rh = REENTRIES[((i + hc.rsel) // 5) % len(REENTRIES)]
@@ -950,7 +1395,56 @@ def run_walk(path, init_state, hc, full_every=6):
             if rh != "copy.copy":    # (a shallow copy shares the storage by Python's definition: it is only read)
                 ghosts.append((i + 1, rh, objs[q], prev_items[q]))
                 objs[q] = new
-        if e["op"] == "scratch":
+        if e["op"] == "fresh":
+            # live object o is replaced by an EMPTY paragraph of its class (or emptied in place)
+            target = o - 1
+            how = e["args"][1]
+            old_obj = objs[target]
+            try:
+                new, wname = make_empty(hc.classes[target], how, i * 7 + hc.rsel, old_obj)
+                got = project(new)
+            except Exception as ex:                                  # noqa: BLE001
+                return "step %d: an empty %s paragraph through %s (%s) raised %s" % (
+                    i + 1, hc.classes[target], EMPTY_WAYS[how][(i * 7 + hc.rsel) % len(EMPTY_WAYS[how])], how, type(ex).__name__), n
+            where = "step %d: object %d replaced by an empty paragraph, %s" % (i + 1, o, wname)
+            if got != [] or type(new) is not get_class(hc.classes[target]):
+                return "%s: it is a %s holding %s" % (where, type(new).__name__, short(show(got), 160)), n
+            if new is not old_obj:
+                ghosts.append((i + 1, "predecessor of the empty paragraph", old_obj, prev_items[target]))
+            objs[target] = new
+            haspad[target] = False
+            prev_items[target] = []
+        elif e["op"] == "rebuild":
+            # live object o is replaced by Cls_o(M); M carries the fields m (TLC computed them)
+            target = o - 1
+            _, q, ckind, x, m = e["args"]
+            content = hc.para(m, haspad[q - 1])
+            sel = i * 5 + hc.rsel
+            qkind = "D" if q == 1 else "S"
+            if ckind == "dict":
+                carrier, cname = plain_carrier(content, sel)
+            elif not x and ckind == qkind and sel % 2 == 0 and prev_items[q - 1] == content:
+                carrier, cname = objs[q - 1], "live object %d (%s)" % (q, hc.classes[q - 1])
+            else:
+                ccls = (hc.dset if ckind == "D" else hc.sset)[sel % len(hc.dset if ckind == "D" else hc.sset)]
+                carrier, cname = para_carrier(ccls, content), "a %s paragraph" % ccls
+                if carrier is None:
+                    # the carrier class did not take the fields as they are (raw string under its multivalued
+                    # key: not decided by the statement) -- this history cannot be followed any further
+                    return None, n - 1
+            style = sel // 3
+            where = "step %d: object %d := %s with M = %s holding %s" % (
+                i + 1, o, BUILD_STYLES[style % len(BUILD_STYLES)].replace("Cls", hc.classes[target]), cname, short(show(content), 160))
+            new, res = build_from(hc.classes[target], carrier, style)
+            if res != e["res"]:
+                return "%s: outcome %s, the model says %s (building a paragraph from a mapping assigns every field; the verdict depends on the target class and the values only)" % (where, res, e["res"]), n
+            if res == "ok":
+                if type(new) is not get_class(hc.classes[target]):
+                    return "%s: the result is a %s" % (where, type(new).__name__), n
+                ghosts.append((i + 1, "predecessor of the rebuilt paragraph", objs[target], prev_items[target]))
+                objs[target] = new
+                haspad[target] = haspad[q - 1]
+        elif e["op"] == "scratch":
             clsname = hc.classes[1 + i % 2]
             where = "step %d: %s()[%r] = %s on a throw-away object (multivalued key)" % (i + 1, clsname, hc.key(k), short(val))
             try:
@@ -972,7 +1466,7 @@ def run_walk(path, init_state, hc, full_every=6):
                 items = project(d)
             except Exception as ex:                                  # noqa: BLE001
                 return "%s: reading object %d raised %s" % (where, q + 1, type(ex).__name__), n
-            exp = hc.para(e["to"][q])
+            exp = hc.para(e["to"][q], haspad[q])
             if q == target and e["res"] == "ok":
                 if [kv[0] for kv in items] != [kv[0] for kv in exp]:
                     return "%s accepted: field names are now %s, the model says %s" % (where, short(show([kv[0] for kv in items]), 200), short(show([kv[0] for kv in exp]), 200)), n
@@ -986,6 +1480,8 @@ def run_walk(path, init_state, hc, full_every=6):
         if (i + 1) % full_every == 0 or i == len(path) - 1:
             todo = list(range(len(objs)))
         for q in todo:
+            if not prev_items[q]:
+                continue                                             # an empty paragraph has no text to read back
             dh = DUMPS[(i + q + hc.rsel) % len(DUMPS)]
             text, rb = read_all(objs[q], dh)
             keys = [kv[0] for kv in prev_items[q]]
@@ -1009,6 +1505,10 @@ def run_walk(path, init_state, hc, full_every=6):
 
 
 def _stepshow(e, hc):
+    if e["op"] == "fresh":
+        return "object %s replaced by an empty paragraph (%s)" % (e["args"][0], e["args"][1])
+    if e["op"] == "rebuild":
+        return "object %s := Cls(%s mapping of object %s%s) -> %s" % (e["args"][0], e["args"][2], e["args"][1], " + raw value" if e["args"][3] else "", e["res"])
     o, k, v = e["args"]
     return "%s %s[%s]=%s -> %s" % (e["op"], o, hc.key(k), short(hc.valmap[tuple(v)], 30), e["res"])
 
@@ -1017,15 +1517,17 @@ def walk_chunk(payload):
     import random
     import traceback
     from lts import LTS, strip
-    seed, tier, off, nwalks, wlen, edges, init, values = payload
-    rng = random.Random("C08-%s-walks-%d" % (seed, off))
-    out = {"n": 0, "steps": 0, "violations": [], "ops": {}}
+    seed, tier, off, nwalks, wlen, edges, init, values = payload[:8]
+    kind = payload[8] if len(payload) > 8 else "classic"
+    rng = random.Random("C08-%s-walks-%s-%d" % (seed, kind, off))
+    out = {"n": 0, "steps": 0, "violations": [], "ops": {}, "kind": kind, "forms": {}}
+    WAY_STATS.clear()
     try:
         g = LTS(edges, init)
         for w in range(nwalks):
             stress = (off + w) % 3 == 0
             hc = HistConc(rng, values, stress)
-            path = gen_walk(rng, g, wlen)
+            path = (gen_walk_build if kind == "build" else gen_walk)(rng, g, wlen)
             msg, n = run_walk(path, init, hc)
             out["n"] += 1
             out["steps"] += n
@@ -1035,6 +1537,7 @@ def walk_chunk(payload):
             if msg and len(out["violations"]) < 2:
                 out["violations"].append(({"kind": "walk", "init": init, "path": [strip(e) for e in path], "conc": hc.to_json()},
                                           "history on live objects %s: %s" % (hc.classes, msg)))
+        out["forms"] = dict(WAY_STATS)
     except Exception:                                                # noqa: BLE001
         out["crash"] = traceback.format_exc()
     return out
@@ -1178,9 +1681,12 @@ def _items_all(objs):
 
 
 def record_trace(rng, nev, script=None):
-    """random assignment history on TWO live objects (any of Deb822 / Dsc / Changes) interleaved with
-    multivalued-key assignments to throw-away objects; values are re-used across keys, objects and
-    classes and repeated after rejections.  `script` re-executes a recorded history."""
+    """random assignment history on TWO live objects (any class) interleaved with multivalued-key
+    assignments to throw-away objects; values are re-used across keys, objects and classes and repeated
+    after rejections; now and then a live object is replaced by an EMPTY paragraph of its class (every
+    way to obtain one: "fresh") or by a paragraph BUILT FROM A MAPPING ("build": plain mappings, the other
+    live object, a throw-away paragraph of any class -- possibly holding a raw string under a key that is
+    multivalued, hence unvalidated, in ITS class).  `script` re-executes a recorded history."""
     if script is None:
         classes = [rng.choice(TRACE_CLASSES), rng.choice(TRACE_CLASSES)]
         starts = []
@@ -1195,16 +1701,40 @@ def record_trace(rng, nev, script=None):
         classes, starts = script["classes"], script["starts"]
     builds = script["builds"] if script is not None and "builds" in script else (
         [rng.choice(BUILD_KINDS) for _ in classes] if script is None else ["assign"] * len(classes))
-    objs = [build(c, st, bk) for c, st, bk in zip(classes, starts, builds)]
+    objs = [build(c, st, bk, sum(len(k) + len(v) for k, v in st)) for c, st, bk in zip(classes, starts, builds)]
     init = _items_all(objs)
     events, calls = [], []
     newkeys = 0
     used = []                                     # values given so far
     last = None
     for i in range(nev if script is None else len(script["calls"])):
+        extra = None
         if script is None:
             r = rng.random()
-            if last is not None and last[4] != "ok" and r < 0.25:
+            ro = rng.random()
+            if ro < 0.09:                                                      # an empty paragraph takes the place
+                obj = rng.randint(1, len(objs))
+                clsname, key, v, route, carry = classes[obj - 1], "", "", "fresh", ""
+                extra = {"how": rng.choice(["noarg", "parsed", "parsed", "cleared"]), "sel": rng.randrange(10000)}
+            elif ro < 0.21:                                                    # a paragraph built from a mapping
+                obj = rng.randint(1, len(objs))
+                clsname, key, v, route, carry = classes[obj - 1], "", "", "build", ""
+                rc = rng.random()
+                if rc < 0.3:
+                    car = ["plain", rng.randrange(1000)]
+                elif rc < 0.45:
+                    car = ["live"]
+                else:
+                    cc = rng.choice(TRACE_CLASSES)
+                    mks = [k for k in MULTI[cc] if k not in MULTI[clsname]]
+                    if mks and rng.random() < 0.75:                            # a raw string nobody validated
+                        raw = rng.choice(used[-4:]) if (used and rng.random() < 0.4) else gen_value(rng)
+                        car = ["para", cc, SPELL[rng.choice(mks)], raw]
+                        used.append(raw)
+                    else:
+                        car = ["para", cc, "", ""]
+                extra = {"src": rng.randint(1, len(objs)), "carrier": car, "style": rng.randrange(1000)}
+            elif last is not None and last[4] != "ok" and r < 0.25:
                 obj, clsname, key, v, _ = last                                 # the same call again after a rejection
             else:
                 obj = 0 if r > 0.88 else rng.randint(1, len(objs))
@@ -1218,7 +1748,7 @@ def record_trace(rng, nev, script=None):
                 else:                                                          # name is used on other classes
                     clsname = classes[obj - 1]
                     present = [k for k in objs[obj - 1]]
-                    if len(present) < 5 and rng.random() < 0.35:
+                    if not present or (len(present) < 5 and rng.random() < 0.35):
                         cand = [k for k in KEY_POOL + LONG_KEYS[:2] + ["Files", "Files", "Checksums-Md5", "SHA256", "Checksums-Sha1"]
                                 if k not in present and k.lower() not in MULTI[clsname]]
                         key = rng.choice(cand)
@@ -1226,41 +1756,81 @@ def record_trace(rng, nev, script=None):
                         key = rng.choice(present)
                         if rng.random() < 0.2 and key.isascii():               # (only ASCII case folding is assumed)
                             key = rng.choice([key.lower(), key.upper()])       # another spelling of the same field
-            route = rng.choice(("setitem", "setitem", "update", "update-map", "update-kw", "setdefault"))
-            # (not "parse": re-parsing trims the first line of a value -- C02's subject, not C08's)
-            carry = rng.choice(REENTRIES[:-1]) if (obj != 0 and rng.random() < 0.12) else ""
+            if extra is None:
+                route = rng.choice(("setitem", "setitem", "update", "update-map", "update-kw", "setdefault"))
+                # (not "parse": re-parsing trims the first line of a value -- C02's subject, not C08's)
+                carry = rng.choice(REENTRIES[:-1]) if (obj != 0 and rng.random() < 0.12) else ""
         else:
             obj, clsname, key, v, route = script["calls"][i][:5]
             carry = script["calls"][i][5] if len(script["calls"][i]) > 5 else ""
-        if carry:                                 # the live object is replaced by its copy / pickle / ...
+            extra = script["calls"][i][6] if len(script["calls"][i]) > 6 else None
+        op, m = "assign", []
+        if route == "fresh":
+            op = "fresh"
             try:
-                objs[obj - 1] = reenter(objs[obj - 1], carry)
-            except Exception:                                        # noqa: BLE001  shows up in the items below
-                pass
-        if obj != 0 and key not in objs[obj - 1]:
-            newkeys += 1
-        if obj == 0:
-            try:
-                res = assign(get_class(clsname)(), key, v, route)
+                new, _ = make_empty(clsname, extra["how"], extra["sel"], objs[obj - 1])
+                objs[obj - 1] = new
+                res = "ok"
             except Exception as e:                                   # noqa: BLE001
                 res = "EXC:" + type(e).__name__
+            last = None
+        elif route == "build":
+            op = "build"
+            src = objs[extra["src"] - 1]
+            content = [kv for kv in _items_all([src])[0] if kv[0].lower() not in MULTI[clsname]]
+            car = extra["carrier"]
+            if car[0] == "plain":
+                carrier, _ = plain_carrier(content, car[1])
+                m = [list(kv) for kv in content]
+            elif car[0] == "live" and content == _items_all([src])[0]:
+                carrier, m = src, [list(kv) for kv in content]
+            elif car[0] == "live":
+                carrier, m = dict(tuple(kv) for kv in content), [list(kv) for kv in content]
+            else:
+                pairs = [list(kv) for kv in content]
+                if car[2]:
+                    hit = [j for j, kv in enumerate(pairs) if kv[0].lower() == car[2].lower()]
+                    if hit:
+                        pairs[hit[0]][1] = car[3]
+                    else:
+                        pairs.append([car[2], car[3]])
+                carrier, m = para_carrier(car[1], pairs), pairs
+                if carrier is None:
+                    continue        # what that class does with the raw string is not decided by the statement
+            new, res = build_from(clsname, carrier, extra["style"])
+            if res == "ok":
+                objs[obj - 1] = new
+            last = None
         else:
-            res = assign(objs[obj - 1], key, v, route)
+            if carry:                             # the live object is replaced by its copy / pickle / ...
+                try:
+                    objs[obj - 1] = reenter(objs[obj - 1], carry)
+                except Exception:                                    # noqa: BLE001  shows up in the items below
+                    pass
+            if obj != 0 and key not in objs[obj - 1]:
+                newkeys += 1
+            if obj == 0:
+                try:
+                    res = assign(get_class(clsname)(), key, v, route)
+                except Exception as e:                               # noqa: BLE001
+                    res = "EXC:" + type(e).__name__
+            else:
+                res = assign(objs[obj - 1], key, v, route)
+            used.append(v)
+            last = (obj, clsname, key, v, res)
         items = _items_all(objs)
-        if obj != 0 and res == "ok":
+        if obj != 0 and res == "ok" and items[obj - 1]:
             text, rb = read_all(objs[obj - 1], DUMPS[(i + len(v)) % len(DUMPS)])
             # one of the ways of the object's own class, rotating
             way = [w for w in pick_ways(i + len(v), 4) if w[3] != "omit"][0]
             wkeys = [k for k in objs[obj - 1]]
             for ws_default, name in ((False, "wF"), (True, "wT")):
-                rb[name] = read_way(clsname, text, way, ws_default, wkeys) if text is not None else rb["sF"]
+                rb[name] = read_way(clsname, text, way, ws_default, wkeys, i) if text is not None else rb["sF"]
             rbj = enc_rb(rb)
         else:
             rbj = NO_RB
-        used.append(v)
-        last = (obj, clsname, key, v, res)
-        calls.append([obj, clsname, key, v, route, carry])
-        events.append({"obj": obj, "cls": clsname, "key": cp(key), "v": cp(v), "acc": res == "ok", "res": res,
+        calls.append([obj, clsname, key, v, route, carry] + ([extra] if extra is not None else []))
+        events.append({"op": op, "obj": obj, "cls": clsname, "key": cp(key), "v": cp(v), "m": enc_para(m), "acc": res == "ok", "res": res,
                        "items": [enc_para(p) for p in items], "rb": rbj})
     return {"objs": [{"cls": c, "para": enc_para(p)} for c, p in zip(classes, init)], "events": events, "newkeys": newkeys,
             "script": {"classes": classes, "starts": starts, "builds": builds, "calls": calls}}
@@ -1270,9 +1840,9 @@ def slim(t):
     return {"objs": t["objs"], "deep": t.get("deep", True), "events": t["events"]}
 
 
-def _ev(obj, cls, key, v, acc, items, rb=None, res=None):
-    return {"obj": obj, "cls": cls, "key": cp(key), "v": cp(v), "acc": acc, "res": res or ("ok" if acc else "ValueError"),
-            "items": [enc_para(p) for p in items], "rb": rb or NO_RB}
+def _ev(obj, cls, key, v, acc, items, rb=None, res=None, op="assign", m=()):
+    return {"op": op, "obj": obj, "cls": cls, "key": cp(key), "v": cp(v), "m": enc_para(m), "acc": acc,
+            "res": res or ("ok" if acc else "ValueError"), "items": [enc_para(p) for p in items], "rb": rb or NO_RB}
 
 
 def _rb(keys, **over):
@@ -1291,6 +1861,7 @@ P3 = [["A", "x"], ["B", "x"], ["C", "x"]]
 Q1 = [["Source", "x"]]
 K3 = ["A", "B", "C"]
 PB = [["A", "x"], ["B", "y\n z: w"], ["C", "x"]]
+PC = [["A", "x"], ["B", "y\n z: w"], ["C", "y\n \n z"]]
 # literal traces: what the real code does today -- must be accepted
 GOOD_TRACE = _tr([
     _ev(1, "Deb822", "B", "y\n z: w", True, [PB, Q1], _rb(K3)),
@@ -1302,6 +1873,16 @@ GOOD_TRACE = _tr([
     _ev(1, "Deb822", "c", "y\n \n z", True, [[["A", "x"], ["B", "y\n z: w"], ["C", "y\n \n z"]], Q1 + [["Binary", "y\n z"]]],
         _rb(K3, sT=[K3], fT=[K3], bT=[K3])),
     _ev(1, "Deb822", "Files", "y\rz", False, [[["A", "x"], ["B", "y\n z: w"], ["C", "y\n \n z"]], Q1 + [["Binary", "y\n z"]]]),
+    # construction: an EMPTY Dsc takes the place of object 2 and is filled -- validation applies as ever
+    _ev(2, "Dsc", "", "", True, [PC, []], op="fresh"),
+    _ev(2, "Dsc", "Source", "y\nz: w", False, [PC, []]),
+    _ev(2, "Dsc", "Source", "y\n z", True, [PC, [["Source", "y\n z"]]], _rb(["Source"])),
+    # ... object 1 := Deb822(M): M holds a raw Files value nobody validated -> ValueError, nothing built;
+    # with a clean value the paragraph is M's
+    _ev(1, "Deb822", "", "", False, [PC, [["Source", "y\n z"]]], op="build", m=[["Source", "y\n z"], ["Files", "y\nz: w"]]),
+    _ev(1, "Deb822", "", "", True, [[["Source", "y\n z"], ["Files", "y\n z"]], [["Source", "y\n z"]]], _rb(["Source", "Files"]),
+        op="build", m=[["Source", "y\n z"], ["Files", "y\n z"]]),
+    _ev(1, "Deb822", "", "", True, [[], [["Source", "y\n z"]]], op="build", m=[]),
 ])
 
 
@@ -1333,6 +1914,25 @@ def control_traces():
     out.append(_tr([_ev(2, "Dsc", "Binary", "y", True, [P3, [["Binary", "y"], ["Source", "x"]]], _rb(["Binary", "Source"]))]))
     # wrong exception type
     out.append(_tr([_ev(1, "Deb822", "B", "y\n", False, [P3, Q1], res="EXC:TypeError")]))
+    # ---- construction
+    mbad = [["Source", "x"], ["Files", bad]]
+    # Deb822(M) takes over a raw value that injects, with the read-back it gives / with a read-back that hides it
+    out.append(_tr([_ev(1, "Deb822", "", "", True, [mbad, Q1], _rb(["Source", "Files"], **{n: [["Source", "Files", "z"]] for n in TRBNAMES}), op="build", m=mbad)]))
+    out.append(_tr([_ev(1, "Deb822", "", "", True, [mbad, Q1], _rb(["Source", "Files"]), op="build", m=mbad)]))
+    # the construction fails, but the live object is gone / changed
+    out.append(_tr([_ev(1, "Deb822", "", "", False, [[], Q1], op="build", m=mbad)]))
+    # a clean mapping is refused; a field is lost on the way; wrong exception
+    out.append(_tr([_ev(1, "Deb822", "", "", False, [P3, Q1], op="build", m=[["Source", "x"], ["Files", "y\n z"]])]))
+    out.append(_tr([_ev(1, "Deb822", "", "", True, [[["Source", "x"]], Q1], _rb(["Source"]), op="build", m=[["Source", "x"], ["Files", "y\n z"]])]))
+    out.append(_tr([_ev(1, "Deb822", "", "", False, [P3, Q1], op="build", m=mbad, res="EXC:AttributeError")]))
+    # an empty paragraph that is not empty / that takes the other object with it
+    out.append(_tr([_ev(2, "Dsc", "", "", True, [P3, Q1], op="fresh")]))
+    out.append(_tr([_ev(2, "Dsc", "", "", True, [[], []], op="fresh")]))
+    # a paragraph that started empty no longer validates (with a read-back that hides it)
+    out.append(_tr([_ev(2, "Dsc", "", "", True, [P3, []], op="fresh"),
+                    _ev(2, "Dsc", "Source", bad, True, [P3, [["Source", bad]]], _rb(["Source"]))]))
+    out.append(_tr([_ev(1, "Deb822", "", "", True, [[], Q1], op="fresh"),
+                    _ev(1, "Deb822", "B", "y\n", True, [[["B", "y\n"]], Q1], _rb(["B"]))]))
     return out
 
 
@@ -1341,7 +1941,7 @@ def corrupt(t):
     import copy
     out = []
     for i, e in enumerate(t["events"]):
-        if e["acc"] and e["obj"] != 0:
+        if e["acc"] and e["obj"] != 0 and e["rb"]["o"]:
             c = copy.deepcopy(slim(t))
             rbj = c["events"][i]["rb"]
             r = copy.deepcopy(rb_get(rbj, "sF"))
@@ -1351,7 +1951,7 @@ def corrupt(t):
             out.append(c)
             break
     for i, e in enumerate(t["events"]):
-        if not e["acc"] and e["obj"] != 0:
+        if not e["acc"] and e["obj"] != 0 and not e["res"].startswith("EXC:"):
             c = copy.deepcopy(slim(t))
             other = 2 - e["obj"]                                     # 0-based index of the other live object
             c["events"][i]["items"][other] = c["events"][i]["items"][other] + [{"k": [120], "v": []}]
@@ -1413,6 +2013,10 @@ NEG_CONTROLS = (
     ("MemoByValueOnly", "Deb822ValueHist", "MC_Deb822ValueHist_neg.cfg", {"MemoMode": '"value"'}, "HistoryFree"),
     ("MemoByKeyValue", "Deb822ValueHist", "MC_Deb822ValueHist_neg.cfg", {"MemoMode": '"keyvalue"'}, "HistoryFree"),
     ("RejectStoresEmpty", "Deb822ValueHist", "MC_Deb822ValueHist_neg.cfg", {"RejectStoresEmpty": "TRUE"}, "HistoryFree"),
+    ("TrustSourceClass", "Deb822ValueHist", "MC_Deb822ValueHist_neg.cfg",
+     {"UseN": "FALSE", "WithBuild": "TRUE", "TrustSourceClass": "TRUE"}, "HistoryFree"),
+    ("ParseLeavesUnchecked", "Deb822ValueHist", "MC_Deb822ValueHist_neg.cfg",
+     {"UseN": "FALSE", "WithBuild": "TRUE", "ParseLeavesUnchecked": "TRUE"}, "HistoryFree"),
 )
 
 
@@ -1445,6 +2049,7 @@ def run(ctx):
     ctx.assumptions += [
         "bounded: every value up to length %d over 7 code points (x : # space tab CR LF) at the first/middle/last field of A: x / B: x / C: x; longer values and richer neighbour values are sampled (traces, values up to 40 characters)" % maxlen,
         "histories: closed LTS over three live objects (Deb822, Dsc/Changes x 2), keys A / N (absent at first) / Files, values 'x\\n x' / 'x\\nx:x' / 'x\\n' plus multivalued-key assignments to throw-away objects; the reference is history-free, the code has no memo (negative controls: memo by value, by (key, value), rejected assignment leaving an empty field)",
+        "construction: closed LTS over the same three objects, keys A / Files: any live paragraph may be replaced by an EMPTY paragraph of its class (no argument / parsing constructor over field-less input / cleared in place) or by Cls(M), M a mapping carrying another live paragraph's fields, optionally with a raw value under Files (plain mapping / paragraph where Files is ordinary / paragraph where Files is multivalued, i.e. unvalidated); reference: verdict = target class + values, never the carrier; constructions handing a key that is multivalued in the TARGET class are outside the domain and never generated; if a carrier class refuses the raw string (unspecified) the history ends there without a verdict",
         "sizes: payload runs up to 64 KiB, 100 / 1000 continuation lines, field names up to 1024 characters, paragraphs up to 1000 fields, the first special character at offset 4095 / 4096 / 4097 go through the CASE / LTS replay only; their expectation is the one TLC computed for the small value (size lemmas StretchInvariant / RepeatInvariant checked by TLC for one duplication step up to the bound); TLC itself scans strings of <= 40 characters (field names <= 65) in trace validation",
         "unspecified acceptance, executed but never judged: 'zone' (a lone CR followed by something that is not indentation -- a defect only if CR ends a line; rejected today), 'blank' (a whitespace-only continuation line; accepted today) and every assignment to a multivalued key of Dsc / Changes (not validated today). Whatever the code accepts must read back as one paragraph with the same keys (setting False; default setting only when no value in the paragraph has a blank continuation line)",
         "the domain excludes every character Python treats as whitespace or line boundary beyond space, tab, CR, LF (DESIGN.md D1): never generated",
@@ -1485,6 +2090,8 @@ def run(ctx):
                               workers=workers, want_tags={"CASE"})
             f_lts = ex.submit(ctx.tlc_must_hold, "Deb822ValueHist", "MC_Deb822ValueHist.cfg", workers=1,
                               want_tags={"EDGE", "VALUE"})
+            f_ltsb = ex.submit(ctx.tlc_must_hold, "Deb822ValueHist", "MC_Deb822ValueHist_build.cfg", workers=1,
+                               want_tags={"EDGE", "VALUE"})
             f_zone = None if quick else ex.submit(ctx.tlc_must_hold, "Deb822Value", "MC_Deb822Value_zone.cfg",
                                                   workers=2, want_tags={"CASE"})
             r_lts = f_lts.result()
@@ -1498,11 +2105,26 @@ def run(ctx):
             if g.init not in g.out or len(g.states) != r_lts.distinct:
                 raise core.MachineryError("history LTS: %d states from EDGE lines, TLC found %d" % (len(g.states), r_lts.distinct))
             hvalues = [v for v in values if tuple(v["v"]) != (120,)] + [v for v in values if tuple(v["v"]) == (120,)]
-            nwalks, wlen, wchunk = (140, 24, 20) if quick else (1500, 40, 100)
+            nwalks, wlen, wchunk = (110, 24, 20) if quick else (1200, 40, 100)
             slim_edges = [{k: e[k] for k in ("from", "op", "args", "res", "to")} for e in g.edges]
-            wpay = [(ctx.seed, ctx.tier, off, min(wchunk, nwalks - off), wlen, slim_edges, H_INIT, hvalues)
+            wpay = [(ctx.seed, ctx.tier, off, min(wchunk, nwalks - off), wlen, slim_edges, H_INIT, hvalues, "classic")
                     for off in range(0, nwalks, wchunk)]
             a_walks = pool.map_async(walk_chunk, wpay)
+            # ... and through the LTS with construction (Fresh / Rebuild; keys A / Files)
+            r_ltsb = f_ltsb.result()
+            edges_b = r_ltsb.printed.get("EDGE", [])
+            if not edges_b or any(not isinstance(e, dict) for e in edges_b) or len(r_ltsb.printed.get("VALUE", [])) != 4:
+                raise core.MachineryError("construction LTS: %d EDGE lines" % len(edges_b))
+            gb = LTS(edges_b, H_INIT)
+            if gb.init not in gb.out or len(gb.states) != r_ltsb.distinct:
+                raise core.MachineryError("construction LTS: %d states from EDGE lines, TLC found %d" % (len(gb.states), r_ltsb.distinct))
+            if not {"fresh", "rebuild", "assign", "scratch"} <= {e["op"] for e in gb.edges}:
+                raise core.MachineryError("construction LTS lacks an action")
+            nwalks_b, wchunk_b = (90, 15) if quick else (900, 100)
+            slim_b = [{k: e[k] for k in ("from", "op", "args", "res", "to")} for e in gb.edges]
+            wpay_b = [(ctx.seed, ctx.tier, off, min(wchunk_b, nwalks_b - off), wlen, slim_b, H_INIT, hvalues, "build")
+                      for off in range(0, nwalks_b, wchunk_b)]
+            a_walks_b = pool.map_async(walk_chunk, wpay_b)
             r_bnd = f_bnd.result()
             r_zone = f_zone.result() if f_zone else None
         # the (small) negative-control runs go after the big one, next to the replay
@@ -1523,6 +2145,10 @@ def run(ctx):
     for e in g.edges:
         kk = "%s/%s" % (e["op"], e["res"])
         ops[kk] = ops.get(kk, 0) + 1
+    ops_b = {}
+    for e in gb.edges:
+        kk = "%s/%s" % (e["op"], e["res"])
+        ops_b[kk] = ops_b.get(kk, 0) + 1
     ctx.extra["model"] = {"alphabet": [120, 58, 35, 32, 9, 13, 10], "max_len": maxlen, "values": len(cases),
                           "classes": zones,
                           "zone_what_if_len4": (None if r_zone is None else {
@@ -1530,8 +2156,11 @@ def run(ctx):
                               "would_read_back_clean_if_accepted": sum(1 for c in r_zone.printed.get("CASE", []) if c["cls"] == "zone" and c["zs"])}),
                           "positions": 3, "forms": ["str", "file(LF)"], "ws": [False, True],
                           "history_lts": {"states": len(g.states), "edges": len(g.edges), "edges_per_action": ops,
-                                          "objects": ["Deb822", "Dsc|Changes", "Dsc|Changes"], "keys": ["A", "N", "Files"],
-                                          "values": [txt(v["v"]) for v in hvalues]}}
+                                          "objects": ["D: the key is an ordinary field", "S: the key is multivalued", "S"], "keys": ["A", "N", "Files"],
+                                          "values": [txt(v["v"]) for v in hvalues]},
+                          "construction_lts": {"states": len(gb.states), "edges": len(gb.edges), "edges_per_action": ops_b,
+                                               "keys": ["A", "Files"], "fresh_hows": sorted(EMPTY_WAYS),
+                                               "carriers": ["dict", "D paragraph", "S paragraph (raw value under its multivalued key)"]}}
     phase["tlc_bounded+controls+lts_s"] = round(time.time() - t_ph, 1)
     t_ph = time.time()
 
@@ -1539,6 +2168,7 @@ def run(ctx):
     #    seeded generators: the result does not depend on the number of processes)
     stats = {}
     stress = {}
+    forms = {}
     n_known = 0
     known_ex = []
     n_checked = 0
@@ -1547,7 +2177,7 @@ def run(ctx):
     payloads = [(ctx.seed, ctx.tier, off, cases[off:off + CASE_CHUNK]) for off in range(0, len(cases), CASE_CHUNK)]
     try:
         chunk_results = list(pool.imap(replay_chunk, payloads))
-        walk_results = a_walks.get()
+        walk_results = a_walks.get() + a_walks_b.get()
     finally:
         pool.close()
         pool.join()
@@ -1559,6 +2189,8 @@ def run(ctx):
             stats[k] = stats.get(k, 0) + n
         for k, n in r["stress"].items():
             stress[k] = stress.get(k, 0) + n
+        for k, n in r["forms"].items():
+            forms[k] = forms.get(k, 0) + n
         for dmsg in r["drift"][:3]:
             ctx.drift(dmsg)
         for vcase, msg in r["violations"]:
@@ -1592,16 +2224,21 @@ def run(ctx):
     ctx.extra["case_replays"] = n_checked
     ctx.extra["case_replay_violations"] = n_bad
     ctx.extra["size_stressed_replays"] = stress
-    ctx.extra["outcomes_per_class"] = {k: n for k, n in sorted(stats.items())}
+    ctx.extra["outcomes_per_class"] = {k: n for k, n in sorted(stats.items()) if not k.startswith("aligned/")}
+    ctx.extra["aligned_cases"] = {k[len("aligned/"):]: n for k, n in sorted(stats.items()) if k.startswith("aligned/")}
     ctx.evaluations += max(0, n_checked - len(cases))
     # walks
     n_walks = n_steps = n_wbad = 0
     wops = {}
+    wkinds = {}
     for r in walk_results:
         if r.get("crash"):
             raise core.MachineryError("history replay worker failed:\n" + r["crash"])
         n_walks += r["n"]
         n_steps += r["steps"]
+        wkinds[r["kind"]] = wkinds.get(r["kind"], 0) + r["n"]
+        for k, n in r["forms"].items():
+            forms[k] = forms.get(k, 0) + n
         for k, n in r["ops"].items():
             wops[k] = wops.get(k, 0) + n
         for vcase, msg in r["violations"]:
@@ -1611,7 +2248,8 @@ def run(ctx):
     for w in range(n_walks):
         ctx.distinct.add(("walk", w))
     ctx.evaluations += n_steps
-    ctx.extra["history_walks"] = {"walks": n_walks, "steps": n_steps, "steps_per_action": wops, "violations": n_wbad}
+    ctx.extra["history_walks"] = {"walks": n_walks, "walks_per_lts": wkinds, "steps": n_steps, "steps_per_action": wops, "violations": n_wbad}
+    ctx.extra["file_object_kinds"] = {FORM_SRC[k]: n for k, n in sorted(forms.items())}
     phase["replay_s"] = round(time.time() - t_ph, 1)
 
     # 4. results of the trace validation
@@ -1649,6 +2287,11 @@ def run(ctx):
     ctx.extra["trace_values"] = {"assigned": nvals, "accepted": nacc, "max_len": max(len(e["v"]) for t in traces for e in t["events"]),
                                  "multivalued_key_events": sum(1 for t in traces for e in t["events"] if e["obj"] == 0),
                                  "new_key_events": sum(t["newkeys"] for t in traces),
+                                 "fresh_events": sum(1 for t in traces for e in t["events"] if e["op"] == "fresh"),
+                                 "build_events": {r: sum(1 for t in traces for e in t["events"] if e["op"] == "build" and e["res"] == r)
+                                                  for r in sorted({e["res"] for t in traces for e in t["events"] if e["op"] == "build"})},
+                                 "build_events_with_raw_multivalued_value": sum(1 for t in traces for c in t["script"]["calls"]
+                                                                                 if len(c) > 6 and c[4] == "build" and c[6]["carrier"][0] == "para" and c[6]["carrier"][2]),
                                  "reader_model_evaluated_on": sum(len(t["events"]) for t in traces if t["deep"])}
     ctx.extra["traces_rejected"] = n_rej
     ctx.extra["model_vs_observation_differences"] = n_diff
@@ -1660,8 +2303,20 @@ def run(ctx):
 def _evshow(t, i):
     e = t["events"][i]
     tgt = "throw-away %s" % e["cls"] if e["obj"] == 0 else "object %d (%s)" % (e["obj"], e["cls"])
-    s = "%s [%s] := %s -> %s" % (tgt, txt(e["key"]), show(txt(e["v"])), e["res"])
-    if e["acc"] and e["obj"] != 0:
+    call = t.get("script", {}).get("calls", [])
+    extra = call[i][6] if (i < len(call) and len(call[i]) > 6) else {}
+    if e.get("op") == "fresh":
+        how = extra.get("how")
+        s = "%s replaced by an empty paragraph (%s) -> %s, now holds %s" % (
+            tgt, EMPTY_WAYS[how][extra.get("sel", 0) % len(EMPTY_WAYS[how])] if how in EMPTY_WAYS else "?", e["res"],
+            short(show([[txt(f["k"]), txt(f["v"])] for f in e["items"][e["obj"] - 1]]), 120))
+    elif e.get("op") == "build":
+        s = "%s := %s with M = %s holding %s -> %s" % (
+            tgt, BUILD_STYLES[extra.get("style", 0) % len(BUILD_STYLES)].replace("Cls", e["cls"]), extra.get("carrier"),
+            short(show([[txt(f["k"]), txt(f["v"])] for f in e["m"]]), 200), e["res"])
+    else:
+        s = "%s [%s] := %s -> %s" % (tgt, txt(e["key"]), show(txt(e["v"])), e["res"])
+    if e["acc"] and e["obj"] != 0 and e["rb"]["o"]:
         s += " read back " + ",".join("%s=%s" % (n, _rbshow({"st": rb_get(e["rb"], n)["st"], "paras": [[txt(k) for k in p] for p in rb_get(e["rb"], n)["paras"]]})) for n in ("sF", "bT"))
     return s
 
